@@ -196,6 +196,16 @@ def dynamic_part(ctx):
                 S.call(f"SSPOR[{bk},{ok}].update_n_basis_modes(2)", lambda: ((), {}), lambda: model.update_n_basis_modes(2), lambda: model.basis.basis_matrix_)
                 S.call(f"SSPOR[{bk},{ok}].update_n_basis_modes(k, x)", lambda: ((X.copy(),), {}), lambda x: model.update_n_basis_modes(min(ne, nf, 4), x, quiet=True))
                 S.call(f"SSPOR[{bk},{ok}].set_number_of_sensors", lambda: ((), {}), lambda: model.set_number_of_sensors(2), watch)
+        # SSPOR handing GQR its keyword arrays (region list – possibly empty – and the unconstrained ranking), several seeds
+        for Lk, Lv in (("region", L), ("empty region", np.array([], dtype=int))):
+            for opt in ("max_n", "exact_n", "predetermined"):
+                for sd in (1, 5):
+                    mg = SSPOR(basis=Identity(n_basis_modes=min(2, ne)), optimizer=GQR())
+                    Ag = np.array(QR().fit(X.T[:, : min(2, ne)].copy()).get_sensors()).copy()
+                    S.call(f"SSPOR[identity,gqr].fit(x, {opt}, {Lk})",
+                           lambda: ((X.copy(),), {"idx_constrained": Lv.copy(), "n_sensors": min(2, ne), "n_const_sensors": min(1, len(Lv)),
+                                                  "all_sensors": Ag.copy(), "constraint_option": opt}),
+                           lambda x, **kw: mg.fit(x, quiet=True, seed=sd, **kw))
         # prefit basis shared between objects: sensor selection must not corrupt it
         b = Identity(n_basis_modes=min(3, ne)).fit(X.copy())
         S.call("SSPOR(prefit).fit", lambda: ((X.copy(),), {}), lambda x: SSPOR(basis=b, optimizer=CCQR()).fit(x, prefit_basis=True, quiet=True, seed=0),
